@@ -147,7 +147,10 @@ def mlr(args, stdin=b"", binary="mlr-verif", cwd=None, env=None, cpu_s=20, watch
     r.cwd = cwd
     so_path = os.path.join(meta, "stdout")
     se_path = os.path.join(meta, "stderr")
-    so = open(stdout_to, "wb") if stdout_to else open(so_path, "wb")
+    if isinstance(stdout_to, int):
+        so = os.fdopen(os.dup(stdout_to), "wb")
+    else:
+        so = open(stdout_to, "wb") if stdout_to else open(so_path, "wb")
     se = open(se_path, "wb")
     if stdin_file is not None:
         si = open(stdin_file, "rb")
